@@ -73,6 +73,9 @@ def build_universe(thorough, rng):
         d2 += [("darr", s), ("sarr", s, 2), ("tuple", s), ("named", 1, ("f0",), s), ("tuple", s, "bool")]
     d2 += [("tuple", s1, s2) for s1 in S2 for s2 in S2]
     d2 += [("named", 2, ("f0", "f1"), s1, s2) for s1 in S2[:4] for s2 in S2[:4]]
+    # holders of (non-ARC-4) transaction / reference specs: exercises the member refusals of Tuple.set
+    d2 += [("darr", ("txn", "pay")), ("tuple", ("tuple", ("txn", "appl"))), ("tuple", ("sarr", ("txn", "pay"), 2)),
+           ("tuple", ("darr", ("txn", "pay"))), ("tuple", ("tuple", ("ref", "asset")))]
     U += d2
     seen, out = set(), []
     for t in U:
